@@ -41,6 +41,15 @@ pub fn write_tree(root: &Path, packed: &[u8]) -> Result<(), String> {
             std::fs::create_dir_all(&full).map_err(|e| format!("mkdir {}: {}", full.display(), e))?;
             continue;
         }
+        if let Some(link) = p.strip_suffix('@') {
+            // symbolic link whose target is the content (used for write faults: a link to /dev/full)
+            let full = root.join(link);
+            if let Some(parent) = full.parent() {
+                std::fs::create_dir_all(parent).map_err(|e| format!("mkdir {}: {}", parent.display(), e))?;
+            }
+            std::os::unix::fs::symlink(String::from_utf8_lossy(&b).to_string(), &full).map_err(|e| format!("symlink {}: {}", full.display(), e))?;
+            continue;
+        }
         if let Some(parent) = full.parent() {
             std::fs::create_dir_all(parent).map_err(|e| format!("mkdir {}: {}", parent.display(), e))?;
         }
